@@ -382,6 +382,21 @@ def _rand_header(rng):
         if every or rng.random() < 0.4:
             hd["old_genre"] = bytes(rng.choice([0, 1, 127, 128, 255, rng.randrange(256)]) for _ in range(20)).hex()
         hd["full_range"] = True  # marker only (counted in the evidence); build_ojn does not read it
+    elif rng.random() < 0.3:
+        # (14) EVERY header field non-zero, non-empty and different from every other field of the file (per-difficulty fields different
+        # per difficulty), so that a field decoded from a sibling's bytes shows: 26 different numbers, 4 different texts, float fields apart
+        v = rng.sample(range(2, 30000), 26)
+        hd.update(songid=v[0], genre=v[1], old_encode_version=v[2], old_songid=v[3], bmp_size=v[4], old_file_version=v[5], level=v[6:10], time=v[10:13],
+                  event_count=v[13:16], note_count=v[16:19], measure_count=v[19:22], encode_version=_f32(rng.choice([2.5, 1.75, 3.25])),
+                  old_genre=bytes(rng.sample(range(1, 256), 20)).hex(), cover=bytes(rng.randrange(1, 256) for _ in range(rng.choice([3, 5, 64]))).hex())
+        hd.pop("bmp", None)
+        names = rng.sample(["Alpha title", "Beta artist", "Gamma noter", "Delta x", "Epsilon 5", "Zeta (z)"], 3)
+        hd.update(title=names[0], artist=names[1], noter=names[2], ojm_file=f"o2ma{v[22]}.ojm")
+        for key in ("title", "artist", "noter", "ojm_file"):
+            hd.pop(key + "_hex", None)
+        while hd["bpm"] == hd["encode_version"]:
+            hd["bpm"] = _rand_bpm(rng)
+        hd["all_distinct"] = True  # marker only
     return hd
 
 
@@ -482,6 +497,15 @@ def _rand_diff(rng, single, max_pkgs=40, kind="full"):
             evs = [[sl, [value(), rng.randrange(16), rng.randrange(16), 0]] for sl in range(count) if rng.random() < 0.5 and Fraction(sl, count) not in taken]
             pkgs.insert(pkgs.index(p0) + rng.choice([0, 1]), [p0[0], ch, count, evs])
         pk += pkgs
+    if not single and rng.random() < 0.25:
+        # (17) a tempo event EXACTLY on the position of a note (often the first / the last note of the difficulty), in a package of its own
+        notes = [(q[0], sl, q[2]) for q in pk if 2 <= q[1] <= 8 for sl, _ in q[3]]
+        if notes:
+            by_pos = sorted(notes, key=lambda x: Fraction(x[0]) + Fraction(x[1], x[2]))
+            m, sl, count = rng.choice([by_pos[0], by_pos[0], by_pos[-1], rng.choice(by_pos)])
+            if Fraction(m) + Fraction(sl, count) not in used_pos:
+                used_pos.add(Fraction(m) + Fraction(sl, count))
+                pk.append([m, 1, count, [[sl, _rand_bpm(rng)]]])
     if rng.random() < 0.1:
         pk.append([rng.randrange(0, s0 + L + 2), rng.choice([1, 2, 8, 15]), 0, []])  # a package with 0 slots
     order = rng.random()
@@ -714,6 +738,8 @@ def _drive(rep, cases, quick_s, thorough_s):
         _stats(rep, den, acc)
         if "file" not in case:
             acc["entry_" + case.get("via", "read")] = acc.get("entry_" + case.get("via", "read"), 0) + 1
+            if case["header"].get("all_distinct"):
+                acc["headers_with_every_field_different"] = acc.get("headers_with_every_field_different", 0) + 1
             if case["header"].get("full_range") or any(case["header"].get(k, 0) < 0 for k in ("songid", "genre", "old_songid", "old_encode_version", "bmp_size")):
                 acc["headers_over_the_full_value_range"] = acc.get("headers_over_the_full_value_range", 0) + 1
         seen = set()
@@ -816,7 +842,8 @@ def ojn_random_files_vs_interpreter(rep):
                  "after the cover; in 35% of the files the numeric header fields (song id, genre, levels, old_* fields, bitmap size, durations, counters, encode version, old_genre bytes) are drawn "
                  "over the full range of their declared type (signed int32 / int16 with the top bit set, the extremes, byte-boundary values, 0; float32 incl. negative, tiny, the largest); "
                  "35% of the files have at most one tempo event (at measure 0) in every difficulty; entry point read(bytes) 4/7, read_file(str), "
-                 "read_file(Path), read on an instance 1/7 each")
+                 "read_file(Path), read on an instance 1/7 each; (14) in a fifth of the files EVERY header field is non-zero / non-empty and different from every other field of the file (26 different numbers incl. the per-difficulty "
+                 "levels, durations and counters, 4 different texts, 20 different old_genre bytes, a cover); (17) in a quarter of the multi-tempo difficulties a tempo event sits exactly on the position of a note (half of them: the first note, a quarter: the last)")
     rep.rule = "a case is one OJN byte string and the entry point it is read through; non-trivial when it holds at least 2 notes"
 
     def gen():
